@@ -103,6 +103,9 @@ func discharge(obls []*Obligation, opt solveOpts) {
 	var wg sync.WaitGroup
 	sem := make(chan struct{}, opt.jobs)
 	for i, o := range obls {
+		if o.Decided {
+			continue
+		}
 		wg.Add(1)
 		sem <- struct{}{}
 		go func(i int, o *Obligation) {
